@@ -38,6 +38,9 @@ import (
 	"errors"
 	"fmt"
 	"io"
+	"hash/adler32"
+	"hash/crc32"
+	"hash/fnv"
 	"io/fs"
 	"math"
 	"os"
@@ -108,6 +111,61 @@ const contentLen = 32
 const firstInvalid = 100
 const altBase = 200
 
+// pairBase..: pairs of VALID documents with different values that collide under
+// a common unkeyed 32-bit checksum (crc32-IEEE, crc32-Castagnoli, adler32,
+// fnv32a), found by a birthday search at start.  One replacing the other is a
+// real change; a change detection built on such a checksum calls it unchanged.
+const pairBase = 300
+
+var pairDocs []string // 2k, 2k+1 collide under checksum k
+var pairVals []int
+
+func findWeakChecksumPairs() {
+	sums := []func([]byte) uint32{
+		crc32.ChecksumIEEE,
+		func(b []byte) uint32 { return crc32.Checksum(b, crc32.MakeTable(crc32.Castagnoli)) },
+		adler32.Checksum,
+		func(b []byte) uint32 { h := fnv.New32a(); h.Write(b); return h.Sum32() },
+	}
+	for _, sum := range sums {
+		seen := map[uint32]int{} // checksum -> index into docs
+		var docs []string
+		var vals []int
+		found := false
+		for filler := 0; filler < 2000000 && !found; filler++ {
+			a := 60 + filler%40 // values the generator never uses for plain contents
+			// an unknown string field as filler: 12 pseudo-random characters
+			z := uint64(filler)*0x9E3779B97F4A7C15 + 0x1234567
+			var fill [12]byte
+			for i := range fill {
+				z = (z ^ (z >> 30)) * 0xBF58476D1CE4E5B9
+				z ^= z >> 27
+				fill[i] = "abcdefghijklmnopqrstuvwxyz0123456789"[z%36]
+				z = z*0x94D049BB133111EB + uint64(i)
+			}
+			d := fmt.Sprintf(`{"A": %d, "B": "%s"}`, a, fill[:])
+			for len(d) < contentLen {
+				d += " "
+			}
+			k := sum([]byte(d))
+			if j, ok := seen[k]; ok && vals[j] != a {
+				pairDocs = append(pairDocs, docs[j], d)
+				pairVals = append(pairVals, vals[j], a)
+				found = true
+				break
+			}
+			if _, ok := seen[k]; !ok {
+				seen[k] = len(docs)
+			}
+			docs = append(docs, d)
+			vals = append(vals, a)
+		}
+		if !found {
+			panic("no colliding pair found")
+		}
+	}
+}
+
 // number of malformed content ids; the last four are degenerate files of other lengths
 const numInvalid = 12
 const (
@@ -122,6 +180,9 @@ const (
 // are malformed in various ways.
 func contentBytes(c int) []byte {
 	var s string
+	if c >= pairBase && c < pairBase+len(pairDocs) {
+		return []byte(pairDocs[c-pairBase])
+	}
 	if c >= altBase && c < altBase+firstInvalid {
 		// the same value as id c-altBase, other bytes: only blanks differ
 		s = fmt.Sprintf(`{ "A" :%d }`, c-altBase)
@@ -162,7 +223,7 @@ func contentBytes(c int) []byte {
 
 // contentID is the inverse of contentBytes on what the harness wrote.
 func contentID(b []byte) (int, bool) {
-	for c := 0; c < altBase+firstInvalid; c++ {
+	for c := 0; c < pairBase+len(pairDocs); c++ {
 		if string(contentBytes(c)) == string(b) {
 			return c, true
 		}
@@ -890,12 +951,27 @@ func setup(in input) *runner {
 // rounds: an inode unlinked while the loop still had it open is destroyed (and
 // its watch dropped) only when the loop closes it, i.e. possibly after the
 // first sentinel was queued.
-func (r *runner) settle() bool { return r.settleWith(4, 15*time.Second) }
+// sentinelWaits: a sentinel event that never arrives (the loop is stuck, or the
+// implementation throws events away) first costs a second, not a minute; the
+// total patience before the loop is declared unresponsive stays about a minute.
+var sentinelWaits = []time.Duration{time.Second, 2 * time.Second, 4 * time.Second, 8 * time.Second, 16 * time.Second, 30 * time.Second}
+
+var sentinelsLost int64
+
+func (r *runner) settle() bool { return r.settleSched(sentinelWaits) }
 
 func (r *runner) settleWith(attempts int, each time.Duration) bool {
+	sched := make([]time.Duration, attempts)
+	for i := range sched {
+		sched[i] = each
+	}
+	return r.settleSched(sched)
+}
+
+func (r *runner) settleSched(sched []time.Duration) bool {
 	for round := 0; round < 2; round++ {
 		ok := false
-		for attempt := 0; attempt < attempts && !ok; attempt++ {
+		for _, each := range sched {
 			r.sentN++
 			name := filepath.Join(r.w.sent, fmt.Sprintf("s%d", r.sentN))
 			ch := make(chan struct{})
@@ -907,6 +983,10 @@ func (r *runner) settleWith(attempts int, each time.Duration) bool {
 			case <-ch:
 				ok = true
 			case <-time.After(each):
+				atomic.AddInt64(&sentinelsLost, 1)
+			}
+			if ok {
+				break
 			}
 		}
 		if !ok {
@@ -1203,6 +1283,8 @@ func runRacing(in input) driver.Result {
 		}
 		if w.cur < firstInvalid {
 			valid[w.cur] = true
+		} else if w.cur >= pairBase {
+			valid[pairVals[w.cur-pairBase]] = true
 		}
 		if w.mid >= 0 && w.mid < firstInvalid {
 			valid[w.mid] = true
@@ -1223,7 +1305,9 @@ func runRacing(in input) driver.Result {
 	if kind == 2 {
 		cid = firstInvalid // unreadable: like malformed content
 	}
-	if cid >= altBase {
+	if cid >= pairBase {
+		cid = pairVals[cid-pairBase]
+	} else if cid >= altBase {
 		cid -= altBase // another byte form of the same value
 	}
 	var ob obs
@@ -1325,7 +1409,9 @@ func runWindow(in input) driver.Result {
 		if kind == 2 {
 			cid = firstInvalid
 		}
-		if cid >= altBase {
+		if cid >= pairBase {
+			cid = pairVals[cid-pairBase]
+		} else if cid >= altBase {
 			cid -= altBase
 		}
 		ob := r.args.snapshot()
@@ -1397,10 +1483,33 @@ func runWindow(in input) driver.Result {
 	return res
 }
 
+// A run that takes far longer than any healthy run (5 minutes + 0.3 s per case
+// so far; a healthy quick run needs well under a minute) means the
+// implementation keeps the harness waiting - events thrown away, a loop that
+// stops responding.  The remaining cases are then not run; each reports the
+// overrun, so that the check ends with a VIOLATION instead of a timeout.
+var (
+	runStart time.Time
+	runCases int
+)
+
+func overBudget() bool {
+	if runStart.IsZero() {
+		runStart = time.Now()
+	}
+	runCases++
+	return time.Since(runStart) > 5*time.Minute+time.Duration(runCases)*300*time.Millisecond
+}
+
 func run(raw json.RawMessage) driver.Result {
 	var in input
 	if err := json.Unmarshal(raw, &in); err != nil {
 		panic(err)
+	}
+	if overBudget() {
+		return driver.Result{Coq: "Window [] false false", Kind: "not-run-over-budget",
+			Direct: []string{fmt.Sprintf("harness over its time budget after %d cases (%d sentinel events never arrived): the watch loop keeps losing events or stops responding",
+				runCases, atomic.LoadInt64(&sentinelsLost))}}
 	}
 	switch in.Mode {
 	case "q":
@@ -1487,6 +1596,17 @@ func gen(r *coqfmt.Rng, n int, tier string) []json.RawMessage {
 			in.Dec = 1
 		case 2:
 			in.Dec = 2
+		}
+		if i%4 != 0 && i%4 != 2 && r.Chance(1, 6) && len(in.Ops) >= 2 {
+			// weak-checksum probe: a document, then its collision partner in its place
+			k := r.Intn(len(pairDocs) / 2)
+			j := r.Intn(len(in.Ops) - 1)
+			for d := 0; d < 2; d++ {
+				if kk := in.Ops[j+d].K; !(kk == "rewrite" || kk == "rename" || kk == "trename" || kk == "trunc" || kk == "rewritem") {
+					in.Ops[j+d].K = coqfmt.Pick(r, []string{"rewrite", "rename", "rewritem"})
+				}
+				in.Ops[j+d].C = pairBase + 2*k + d
+			}
 		}
 		if i%4 != 0 && i%4 != 2 && r.Chance(1, 5) {
 			// oracle modes only: some operations write the value in other bytes
@@ -1641,6 +1761,11 @@ func corpus() []json.RawMessage {
 	// two changes closer together than the time Dials needs for the first one (slow Verify)
 	add(input{Mode: "r", Backend: "dials", Layout: 0, Slow: 400, Ops: []op{{K: "rename", C: 1}, {K: "rename", C: 2, P: 2}}})
 	add(input{Mode: "r", Backend: "dials", Layout: 3, Slow: 500, Ops: []op{{K: "rewrite", C: 1}, {K: "rewrite", C: 2, P: 1}, {K: "rewrite", C: 3, P: 2}}})
+	// a valid document replaced by another valid document with the same unkeyed 32-bit checksum
+	for k := 0; k < len(pairDocs)/2; k++ {
+		add(input{Mode: "w", Backend: "args", Layout: 0, Ops: []op{{K: "rewrite", C: pairBase + 2*k}, {K: "rewrite", C: pairBase + 2*k + 1}, {K: "rename", C: pairBase + 2*k}, {K: "rewritem", C: pairBase + 2*k + 1}}})
+	}
+	add(input{Mode: "r", Backend: "dials", Layout: 3, Ops: []op{{K: "rewrite", C: pairBase, P: 2}, {K: "rewrite", C: pairBase + 1, P: 2}}})
 	// a change between the initial Value() and Watch()
 	add(input{Mode: "q", Backend: "args", Layout: 0, Early: 1, Ops: []op{{K: "rename", C: 3}, {K: "rewrite", C: 4}}})
 	add(input{Mode: "q", Backend: "args", Layout: 3, Early: 2, Ops: []op{{K: "rewrite", C: 3}, {K: "k8s", C: 4}, {K: "rename", C: 5}}})
@@ -1685,6 +1810,7 @@ func main() {
 		return
 	}
 	// self-check of the content table against the real decoder
+	findWeakChecksumPairs()
 	scratch = os.Getenv("C17_CHILD")
 	must(os.MkdirAll(scratch, 0o755))
 	defer os.RemoveAll(scratch)
@@ -1699,7 +1825,7 @@ func main() {
 		Prop: "C17", CoqImport: "Dials.Check.C17Check", CoqRun: "run_cases",
 		Rule: "histories of 1..12 (thorough 24) operations over {in-place rewrite, truncate+write, atomic rename-over, kubernetes ..data/..dir swap (old directory removed or kept), " +
 			"symlink into another (fresh or EARLIER) directory, atomic replacement of the symlink's target, delete (path or target only), directory in place of the file, explicit reload} x content {fresh valid, identical bytes, earlier valid, malformed incl. the empty file, blanks only, a lone BOM, a single NUL} " +
-			"on 4 initial layouts, a third of the cases with a decoder whose errors wrap fs.ErrNotExist / ErrPermission / ENOENT path errors / ..., a sixth with a decoder whose values hold a NaN (not DeepEqual to themselves), some oracle-mode cases writing the same value in other bytes, a few dials-backend racing cases with a Verify() that takes 300-600 ms per version; half of the cases quiescent-step (compared with the model), a quarter window mode (the loop held inside a pass while the next operation is applied), a quarter racing with pauses {0,50us,2ms}, a fifth of them with the parent directory " +
+			"on 4 initial layouts, a third of the cases with a decoder whose errors wrap fs.ErrNotExist / ErrPermission / ENOENT path errors / ..., a sixth with a decoder whose values hold a NaN (not DeepEqual to themselves), some oracle-mode cases writing the same value in other bytes, a few dials-backend racing cases with a Verify() that takes 300-600 ms per version, oracle-mode cases in which a valid document is replaced by another one colliding with it under crc32 / crc32c / adler32 / fnv32a; half of the cases quiescent-step (compared with the model), a quarter window mode (the loop held inside a pass while the next operation is applied), a quarter racing with pauses {0,50us,2ms}, a fifth of them with the parent directory " +
 			"removed and re-created (poll mode or a final explicit reload), some in poll mode; window cases are non-trivial with >=1 hold that took effect and >=2 operation kinds; " +
 			"non-trivial: >=3 distinct operation kinds and >=2 changes of the file's content; distinct = distinct JSON inputs",
 		Gen: gen, Run: run, Corpus: corpus(),
